@@ -36,7 +36,7 @@ fn level(e: &Expr) -> u8 {
 fn pr(rng: &mut Rng, e: &Expr, min: u8) -> String {
     use Expr::*;
     let body = match e {
-        Str(s) => lit(rng, s), Insens(s) => format!("^{}", lit(rng, s)), Range(a, b) => format!("{}{}..{}{}", chr(rng, a), sp(rng), sp(rng), chr(rng, b)),
+        Str(s) => lit(rng, s), Insens(s) => format!("^{}{}", sp(rng), lit(rng, s)), Range(a, b) => format!("{}{}..{}{}", chr(rng, a), sp(rng), sp(rng), chr(rng, b)),
         Ident(n) => n.clone(),
         PeekSlice(a, b) => format!("PEEK{}[{}{}..{}{}]", sp(rng), if *a == 0 && rng.chance(1, 2) { String::new() } else { a.to_string() }, sp(rng), sp(rng), b.map(|x| x.to_string()).unwrap_or_default()),
         Choice(a, b) => format!("{}{}|{}{}", pr(rng, a, 1), sp(rng), sp(rng), pr(rng, b, 2)),
@@ -48,7 +48,7 @@ fn pr(rng: &mut Rng, e: &Expr, min: u8) -> String {
         RepMax(x, n) => format!("{}{}{{{},{}{}}}", pr(rng, x, 4), sp(rng), sp(rng), sp(rng), num(rng, *n)),
         RepMinMax(x, m, n) => format!("{}{}{{{}{},{}{}}}", pr(rng, x, 4), sp(rng), num(rng, *m), sp(rng), sp(rng), num(rng, *n)),
         Skip(_) => "ANY".into(),
-        Push(x) => format!("PUSH{}({}{}{})", sp(rng), sp(rng), pr(rng, x, 1), sp(rng)),
+        Push(x) => format!("PUSH{}({}{}{}{})", sp(rng), sp(rng), if rng.chance(1, 5) { format!("|{}", sp(rng)) } else { String::new() }, pr(rng, x, 1), sp(rng)),
         #[cfg(feature = "extras")]
         PushLiteral(s) => format!("PUSH_LITERAL{}({}{}{})", sp(rng), sp(rng), lit(rng, s), sp(rng)),
         #[cfg(feature = "extras")]
@@ -58,7 +58,8 @@ fn pr(rng: &mut Rng, e: &Expr, min: u8) -> String {
     let need = level(e) < min || (level(e) == 3 && min == 4);
     #[cfg(feature = "extras")]
     let need = need || (matches!(e, NodeTag(..)) && min >= 3);
-    if need { format!("({}{}{})", sp(rng), body, sp(rng)) } else if rng.chance(1, 12) && level(e) == 5 { format!("({})", body) } else { body }
+    // a leading `|` is legal at the start of every expression, parenthesised ones included
+    if need { format!("({}{}{}{})", sp(rng), if rng.chance(1, 5) { format!("|{}", sp(rng)) } else { String::new() }, body, sp(rng)) } else if rng.chance(1, 12) && level(e) == 5 { format!("({})", body) } else { body }
 }
 fn num(rng: &mut Rng, n: u32) -> String { if rng.chance(1, 5) { format!("{}{}", "0".repeat(rng.range(1, 3)), n) } else { n.to_string() } }
 fn print_rules(rng: &mut Rng, rules: &[Rule]) -> String {
